@@ -26,8 +26,8 @@ G == C01G
 NMax == IF SampleSize > MaxSize THEN SampleSize ELSE MaxSize
 ASSUME InitRegisters
 ASSUME SetContext(CtxForms)
-ASSUME TLCSet(3, G)
-ASSUME TLCSet(4, CountTab(G, NMax, <<>>))
+ASSUME TLCSet(3, Norm(G))
+ASSUME TLCSet(4, Norm(CountTab(G, NMax, <<>>)))
 ASSUME PrintT("CTX " \o ToJson([name |-> "c01", forms |-> CtxForms]))
 ASSUME PrintT(<<"COUNTS", TLCGet(4)>>)
 
